@@ -8,23 +8,29 @@ Import ListNotations.
 Local Open Scope N_scope.
 
 (** * Filters *)
-Lemma f_interest_sound : forall f m,
+Lemma f_interest_sound : forall f m, f12_free f m ->
   (f_interest f m = IAlways -> forall cur, f_enabled f m cur = true) /\
   (f_interest f m = INever -> forall cur, f_enabled f m cur = false).
 Proof.
-  induction f; intro m; simpl.
+  induction f; intros m HF; simpl in *.
   - destruct (m_level m <=? l); split; intros; congruence.
   - destruct (assoc (m_target m) tbl) as [l|]; [|destruct dflt as [l|]]; try (destruct (m_level m <=? l)); split; intros; congruence.
   - destruct (p m); split; intros; congruence.
   - split; intros; discriminate.
+  - unfold env_enabled. destruct (is_span m && dyn_matches dy m) eqn:Em; simpl.
+    + split; [|discriminate]. intros _ cur. rewrite (proj2 (N.leb_le _ _) (HF eq_refl)). reflexivity.
+    + destruct (env_static st dflt m) eqn:Es.
+      * split; [|discriminate]. intros _ cur. apply orb_true_r.
+      * destruct dy; split; intros; try discriminate. rewrite orb_false_r.
+        destruct (m_level m <=? _); simpl; auto. induction cur; simpl; auto.
   - split; intros; congruence.
-  - destruct (IHf1 m) as [A1 N1]. destruct (IHf2 m) as [A2 N2].
+  - destruct HF as [H1 H2]. destruct (IHf1 m H1) as [A1 N1]. destruct (IHf2 m H2) as [A2 N2].
     destruct (f_interest f1 m), (f_interest f2 m); simpl; split; intros H cur; try discriminate;
       try (rewrite N1 by auto); try (rewrite N2 by auto); try (rewrite A1 by auto); try (rewrite A2 by auto); auto using andb_false_r.
-  - destruct (IHf1 m) as [A1 N1]. destruct (IHf2 m) as [A2 N2].
+  - destruct HF as [H1 H2]. destruct (IHf1 m H1) as [A1 N1]. destruct (IHf2 m H2) as [A2 N2].
     destruct (f_interest f1 m), (f_interest f2 m); simpl; split; intros H cur; try discriminate;
       try (rewrite N1 by auto); try (rewrite N2 by auto); try (rewrite A1 by auto); try (rewrite A2 by auto); auto using orb_true_r.
-  - destruct (IHf m) as [A1 N1]. destruct (f_interest f m); split; intros H cur; try discriminate;
+  - destruct (IHf m HF) as [A1 N1]. destruct (f_interest f m); split; intros H cur; try discriminate;
       try (rewrite N1 by auto); try (rewrite A1 by auto); auto.
 Qed.
 
@@ -189,11 +195,12 @@ Proof.
     intros i Hi. apply Ha. apply in_flat_map. exists x. auto.
 Qed.
 
-Lemma chain_all_always : forall ch m st cm, (forall e, In e ch -> f_interest (snd e) m = IAlways) -> chain_accept st cm ch m = true.
+Lemma chain_all_always : forall ch m st cm, (forall e, In e ch -> f12_free (snd e) m) ->
+  (forall e, In e ch -> f_interest (snd e) m = IAlways) -> chain_accept st cm ch m = true.
 Proof.
-  induction ch as [|[k f] r IH]; intros m st cm H; simpl; auto.
-  rewrite (proj1 (f_interest_sound f m)) by (apply (H (k, f)); left; reflexivity). simpl.
-  apply IH. intros e He. apply H. right. exact He.
+  induction ch as [|[k f] r IH]; intros m st cm HF H; simpl; auto.
+  rewrite (proj1 (f_interest_sound f m (HF (k, f) (or_introl eq_refl)))) by (apply (H (k, f)); left; reflexivity). simpl.
+  apply IH; intros e He; [apply HF | apply H]; right; exact He.
 Qed.
-Lemma chain_head_never : forall k f ch m st cm, f_interest f m = INever -> chain_accept st cm ((k, f) :: ch) m = false.
-Proof. intros. simpl. rewrite (proj2 (f_interest_sound f m)) by auto. reflexivity. Qed.
+Lemma chain_head_never : forall k f ch m st cm, f12_free f m -> f_interest f m = INever -> chain_accept st cm ((k, f) :: ch) m = false.
+Proof. intros. simpl. rewrite (proj2 (f_interest_sound f m H)) by auto. reflexivity. Qed.
